@@ -47,6 +47,9 @@ pub struct Disc {
     pub seq: Vec<Ann>,
     pub channel: bool,
     pub ttl: u32,
+    /// ingest through the async (tokio) copy of the receive loop's function instead of the sync one
+    #[serde(default)]
+    pub use_async: bool,
 }
 
 const SERVICES: [&str; 2] = ["_srv._tcp.local", "_my._udp.local"];
@@ -167,6 +170,12 @@ fn check(d: &Disc, case: &mut Case) -> Result<(), Fail> {
     }
     let (tx, rx) = std::sync::mpsc::channel::<InstanceInformation>();
     let mut chan = if d.channel { Some(tx) } else { None };
+    let (atx, mut arx) = tokio::sync::mpsc::channel::<InstanceInformation>(64);
+    let mut achan = if d.channel { Some(atx) } else { None };
+    let rt = tokio::runtime::Builder::new_current_thread().build().map_err(|e| Fail::new("harness:tokio", e.to_string()))?;
+    if d.use_async {
+        case.class("async-ingestion");
+    }
     if d.peers.is_empty() {
         return Ok(());
     }
@@ -228,9 +237,18 @@ fn check(d: &Disc, case: &mut Case) -> Result<(), Fail> {
             }
         };
         let packet = parse(&bytes)?.map_err(|e| Fail::new("c15:unparseable", format!("an announcement does not parse: {:?}", e)))?;
-        lib("add_response_to_resources", || verif_add_response_to_resources(packet, &service_name, &own_full, &mut store, &mut chan))?;
+        if d.use_async {
+            lib("add_response_to_resources (async)", || {
+                rt.block_on(simple_mdns::verif::verif_add_response_to_resources_async(packet, &service_name, &own_full, &mut store, &mut achan))
+            })?;
+        } else {
+            lib("add_response_to_resources", || verif_add_response_to_resources(packet, &service_name, &own_full, &mut store, &mut chan))?;
+        }
         if d.channel {
-            let msgs: Vec<InstanceInformation> = rx.try_iter().collect();
+            let mut msgs: Vec<InstanceInformation> = rx.try_iter().collect();
+            while let Ok(m) = arx.try_recv() {
+                msgs.push(m);
+            }
             match expect_msg {
                 None => ensure!(msgs.is_empty(), "c15:channel-noise", "{:?}: a discovery message {:?} was delivered for records that must never be reported", ann, msgs),
                 Some((name, sum)) => {
@@ -335,15 +353,15 @@ fn strategy(_t: Tier) -> BoxedStrategy<Disc> {
         3 => (0u8..5, 0u8..12).prop_map(|(i, w)| Ann::PeerPlusForeign(i, w)),
         2 => (0u8..5).prop_map(Ann::Goodbye),
     ];
-    (0u8..2, vec(peer, 1..=5), vec(ann, 1..10), any::<bool>(), select(vec![60u32, 120, 4500]), any::<u8>())
-        .prop_map(|(service, peers, seq, channel, ttl, rot)| {
+    (0u8..2, vec(peer, 1..=5), vec(ann, 1..10), any::<bool>(), select(vec![60u32, 120, 4500]), any::<u8>(), proptest::bool::weighted(0.35))
+        .prop_map(|(service, peers, seq, channel, ttl, rot, use_async)| {
             let names = peer_names();
             let peers = peers
                 .into_iter()
                 .enumerate()
                 .map(|(i, (ips, ports, attrs))| Peer { name: names[(i + rot as usize) % names.len()].to_string(), ips, ports, attrs })
                 .collect();
-            Disc { service, peers, seq, channel, ttl }
+            Disc { service, peers, seq, channel, ttl, use_async }
         })
         .boxed()
 }
@@ -378,10 +396,11 @@ fn check_escape(s: &String, case: &mut Case) -> Result<(), Fail> {
 pub fn def() -> CheckDef {
     CheckDef {
         id: "C15",
-        rule: "model-based: a watched service (_srv._tcp.local or _my._udp.local), a discoverer named 'self', 1..5 peers with distinct valid single-label names, 0..4 IPv4/IPv6 addresses, 0..4 ports and attribute lists (values absent / empty / non-empty), and sequences of 1..9 announcements: peers (repeated), the discoverer's own instance, PTR records owned by the service name, the peers' records under textually colliding foreign services (_srvx._tcp.local, x_srv._tcp.local, _srv._tcpx.local, _tcp.local) and under deeper names (a.<peer>.<service>), and peer announcements whose additional section also carries A/SRV/TXT records owned by names outside the service (a host name, another service's instance, the service name itself), and goodbyes (TTL 0) after which the peer may advertise again. Each announcement is assembled like ServiceDiscovery::announce (into_records, answers + address records as additionals), serialised with build_bytes_vec_compressed, parsed, ingested with the receive loop's add_response_to_resources (with and without an on_discovery channel) and read back exactly as get_known_services does. Oracle: every advertised peer is reported exactly once with exactly its name, address set, port set and attribute map; the number of reported instances equals the number of advertised strict-subdomain owners and each equals one owner's record set; nothing for the discoverer, the service name or foreign services; channel messages equal the instance just announced and none is delivered for records that must not be reported. Separately, unescape(escape(s)) == s for generated strings biased to '.' and '\\\\'. Non-trivial = >= 2 peers, a multi-member set, or noise present",
+        rule: "model-based: a watched service (_srv._tcp.local or _my._udp.local), a discoverer named 'self', 1..5 peers with distinct valid single-label names, 0..4 IPv4/IPv6 addresses, 0..4 ports and attribute lists (values absent / empty / non-empty), and sequences of 1..9 announcements: peers (repeated), the discoverer's own instance, PTR records owned by the service name, the peers' records under textually colliding foreign services (_srvx._tcp.local, x_srv._tcp.local, _srv._tcpx.local, _tcp.local) and under deeper names (a.<peer>.<service>), and peer announcements whose additional section also carries A/SRV/TXT records owned by names outside the service (a host name, another service's instance, the service name itself), and goodbyes (TTL 0) after which the peer may advertise again. Each announcement is assembled like ServiceDiscovery::announce (into_records, answers + address records as additionals), serialised with build_bytes_vec_compressed, parsed, ingested with the receive loop's add_response_to_resources — the sync one, or (35% of the cases) the async-tokio copy driven by a current-thread runtime — with and without an on_discovery channel, and read back exactly as get_known_services does. Oracle: every advertised peer is reported exactly once with exactly its name, address set, port set and attribute map; the number of reported instances equals the number of advertised strict-subdomain owners and each equals one owner's record set; nothing for the discoverer, the service name or foreign services; channel messages equal the instance just announced and none is delivered for records that must not be reported. Separately, unescape(escape(s)) == s for generated strings biased to '.' and '\\\\'. Non-trivial = >= 2 peers, a multi-member set, or noise present",
         assumptions: vec![
             "driven through simple_mdns::verif (hook): ResourceRecordManager, add_response_to_resources of the sync service discovery, InstanceInformation::from_records",
             "for deeper names only the record sets are compared (the statement does not define their instance name)",
+            "each peer turns its description into records once and announces those same records every time (as ServiceDiscovery does); TXT::try_from(HashMap) orders strings by map iteration, so re-deriving the records per announcement would create distinct TXT records",
         ],
         sections: vec![
             Box::new(PropSection { name: "discovery", rule: "advertise -> wire -> ingest -> report", strategy, cases: (150_000, 1_500_000), check }),
